@@ -175,3 +175,20 @@ prop(
     must_see=[("honest_batch_accepted", 20), ("flipped_batch_rejected", 60), ("transmitted_flip_rejected", 20), ("block_position_indices_ok", 32768)],
     watchdog_s={"quick": 1200, "thorough": 7200},
 )
+
+prop(
+    "C04",
+    level="fault_enumeration",
+    rule=("protocol per record: upgrade two inputs, two chained MAC multiplications, validate_record, reveal; fields Fp31, Fp32BitPrime, Fp25519 "
+          "and the PRF evaluation eval_dy_prf; totals vs active work (= records per batch) {2,4,16} giving 1, 2 and 3 batches incl. a short "
+          "last batch; pass 1 inventories every chunk; each fault run alters one chunk of one sender (+1 on a seeded element, a bit flip, "
+          "xor 0xFF) in the first / middle / last chunk of every (step family, sender): upgrade, multiply, duplicate multiply, "
+          "propagate-u-w, reveal-r, check-zero, reveal. Oracle: honest runs validate and open a*b*a on all helpers; with a fault some honest "
+          "helper must fail (Fp31: undetected runs counted against a binomial allowance for p = 2/31). distinct = (field, step family, "
+          "sender, position class, pattern class)"),
+    assumptions=["detection failure probability <= 2/|F| per run is ignored for the 32-bit and 255-bit fields"],
+    shards={"quick": 16, "thorough": 16},
+    min_evaluations={"quick": 150, "thorough": 1500},
+    must_see=[("deviation_detected", 100), ("step_families_faulted", 20), ("honest_runs_validated_and_opened", 5)],
+    watchdog_s={"quick": 1200, "thorough": 7200},
+)
